@@ -752,8 +752,13 @@ class Simulation:
     def _data_or_file(self, what, source, frequency, data):
         """Return data or file-name for given what, source, and frequency."""
         if self.file_dir:
+            # The names alone can be ambiguous (e.g., 'A'/'B_C' and 'A_B'/'C'),
+            # hence the positions of source and frequency are included.
+            isrc = list(self.survey.sources.keys()).index(source)
+            ifrq = list(self.survey.frequencies.keys()).index(frequency)
             fname = os.path.join(
-                self.file_dir, f"{what}_{source}_{frequency}.h5")
+                self.file_dir,
+                f"{what}_{isrc}-{source}_{ifrq}-{frequency}.h5")
             io.save(fname, data=data, verb=0)
             return fname
         else:
